@@ -308,7 +308,9 @@ def execute(sc, mutant=None):
 
         # ---- the deck client: requests go through DeckMemoryManager / DeckMemory; the client's own
         # callbacks (or the return of a blocking call) are its notifications
-        def dnote(dctx, k):
+        def dnote(dctx, k, nested=True):
+            """the client is notified: from a library callback (nested), or by the return of its own
+            blocking call"""
             rids = dctx.get('rids') or []
             if rids:
                 w.event(e='dnote', rid=rids[-1], k=k)
@@ -319,7 +321,7 @@ def execute(sc, mutant=None):
             if dreenter.get('on') == key:
                 op = dreenter.pop('op')
                 dreenter.clear()
-                deck_op(op, nested=True)
+                deck_op(op, nested=nested)
 
         def deck_call(kind, fn, nested=False):
             """fn(ok_cb, fail_cb) makes the library call; returns the context (rids of the raw
@@ -375,7 +377,7 @@ def execute(sc, mutant=None):
                     tries -= 1
                     dctx = deck_call('dw', lambda ok, fail: deck.write_sync(off, data))
                     if 'refused' not in dctx:
-                        dnote(dctx, 'ok' if dctx.get('result') else 'fail')
+                        dnote(dctx, 'ok' if dctx.get('result') else 'fail', nested=False)
                     if dctx.get('result') or cf.link is None:
                         break
                 return dctx
@@ -385,14 +387,14 @@ def execute(sc, mutant=None):
                     return deck_call('dr', lambda ok, fail: deck.read(off, ln, ok, fail), nested)
                 dctx = deck_call('dr', lambda ok, fail: deck.read_sync(off, ln))
                 if 'refused' not in dctx:
-                    dnote(dctx, 'ok' if dctx.get('result') is not None else 'fail')
+                    dnote(dctx, 'ok' if dctx.get('result') is not None else 'fail', nested=False)
                 return dctx
             if kind == 'dc':
                 call = {'fw': deck.reset_to_fw, 'bl': deck.reset_to_bootloader,
                         'size': lambda: deck.set_fw_new_flash_size(0x1234)}[op[2]]
                 dctx = deck_call('dc', lambda ok, fail: call())
                 if 'refused' not in dctx:
-                    dnote(dctx, 'done')          # these calls return no result
+                    dnote(dctx, 'done', nested=False)          # these calls return no result
                 return dctx
             raise common.MachineryError('unknown deck operation %r' % (op,))
 
@@ -431,7 +433,7 @@ def execute(sc, mutant=None):
                     vtime.sleep(op[1])
                 elif op[0] == 'dq':
                     d = deck_op(op)
-                    if d is not None and 'refused' not in d:
+                    if d is not None and 'refused' not in d and len(op) == 1:      # ('dq', 'nowait') goes on at once
                         wait_for(lambda: 'done' in d or state['dropped'])
                 else:
                     deck_op(op, drng)
@@ -459,15 +461,13 @@ def execute(sc, mutant=None):
                 want += 2
             wait_for(lambda: oks() - n0 >= want, 10.0)
             if deckmode:
-                # the deck client too: with the objects it already has if the session is the same,
-                # after a new query if the link was lost in between
-                if 'decks' not in state:
-                    d = deck_op(('dq',))
-                    want += 2                    # raw read_ok + the client's callback
-                    wait_for(lambda: oks() - n0 >= want, 10.0)
-                for op in (('dw',) + DECK_EPI_W + ('cb',), ('dr',) + DECK_EPI_R + ('cb',)):
-                    deck_op(op)
-                    want += 2
+                # the deck client too (query, write, read): on the manager it already has if the
+                # session is the same, on the new one if the link was lost in between
+                for op in (('dq',), ('dw',) + DECK_EPI_W + ('cb',), ('dr',) + DECK_EPI_R + ('cb',)):
+                    d = deck_op(op)
+                    if d is not None and 'refused' in d:
+                        res.setdefault('epilogue_refused', d['refused'])
+                    want += 2                    # the raw notification + the client's callback
                     wait_for(lambda: oks() - n0 >= want, 10.0)
             res['epilogue'] = oks() - n0 >= want
             res['drefused'] = state['drefused']
@@ -724,6 +724,11 @@ def deck_scenarios():
     add([R, S, W, S], dreenter={'on': 'dr_ok', 'op': ('dr',) + DECK_RE_R + ('cb',)})
     add([R, S, W, S], dreenter={'on': 'dr_ok', 'op': ('dw',) + DECK_RE_W + ('cb',)})
     add([W, S, R, S], dreenter={'on': 'dq_ok', 'op': ('dw',) + DECK_RE_W + ('cb',)})
+    # two reads of the deck memory at once: the table is queried again while a deck read is running,
+    # and the other way round (Memory serves one read per memory and refuses the second)
+    add([R, ('dq', 'nowait'), S, W, S])
+    add([('dq', 'nowait'), R, S, W, S])
+    add([('dr', 1, 8, 45, 'sync'), ('dq',), W, S])
     for by in ('driver', 'sender', 'driver_at_send'):
         for c in (2, 14, 15, 17):
             add([W, S, R, S], {'drop_after': c, 'drop_by': by})
@@ -1013,6 +1018,9 @@ def signature(t, clause, at, sc):
         tb = ' '.join(d.get('dead', []))
         site = 'IndexError' if 'IndexError' in tb else ('KeyError' if 'KeyError' in tb else
                                                         ('ZeroDivision' if 'ZeroDivision' in tb else 'other'))
+        why = d.get('res', {}).get('epilogue_refused')
+        if clause == 'NotServedAfterwards' and why:
+            site = 'refused:' + why.replace(' ', '-')
         return '%s/%s/%s' % (clause, '+'.join(kinds) or 'nofault', site)
     if clause in ('DeckNotNotified', 'DeckNotifiedTwice', 'DeckNoteMismatch'):
         # which kind of deck client request, and which notification of the raw request went with it
@@ -1039,20 +1047,24 @@ def signature(t, clause, at, sc):
 UNIT = 5      # model length unit: SIM config RC=4, WC=5  <->  20 / 25 bytes
 
 
-def replay_behaviour(beh):
+def replay_behaviour(beh, deck=False):
     """Drive the real Memory along one TLC behaviour of MemProto (SIM constants).  The device is
     stepped manually: Dev(st) serves the oldest request, Deliver*(r) hands one reply to the
     dispatcher.  After every step the projection of the real object is compared with the TLC
-    state.  Returns (matched_steps, total_steps, first_mismatch)."""
+    state.  Returns (matched_steps, total_steps, first_mismatch).
+    deck: memory 0 is a deck memory (SIM_MemProto_deck.cfg, DeckMems = {0}); requests are made
+    through DeckMemory.read/write of deck 0 and dk is compared with the manager's pending-write
+    record."""
     import cflib.crazyflie as cfm
     from cflib.crtp.crtpstack import CRTPPacket  # noqa
-    images = [bytearray((i * 7 + 3) & 0xFF for i in range(MEM_SIZE)) for _ in range(1)]
+    images = [deck_image(random.Random(5)) if deck else bytearray((i * 7 + 3) & 0xFF for i in range(MEM_SIZE))]
+    BASE = DECK_BASES[0] if deck else 0
     total = matched = 0
     first = None
     with vsched.scheduler(vsched.FifoPolicy(), max_steps=40000) as s:
         w = sd.set_world(sd.World())
         inbox, outbox = [], {}
-        mems = [{'type': TYPE_GENERIC, 'size': MEM_SIZE, 'image': images[0]}]
+        mems = [{'type': TYPE_DECK if deck else TYPE_GENERIC, 'size': len(images[0]), 'image': images[0]}]
         dev = sv.standard_device(mems=mems, mode='sync')
         memsvc = dev.services[sv.PORT_MEM]
         w.add('0', dev)
@@ -1079,6 +1091,27 @@ def replay_behaviour(beh):
                     inbox.append(pk)
                     return []
                 return orig_handle(pk)
+        dk = {}
+
+        def query():
+            """(deck) the client asks the new manager for its decks, served by the automatic device"""
+            dk.clear()
+            if not deck:
+                return
+            dk['mgr'] = cf.mem.get_mems(TYPE_DECK)[0]
+            u = s.spawn(lambda: dk['mgr'].query_decks(lambda decks: dk.__setitem__('deck', decks[0])), 'user')
+            s.run(until=lambda: u.finished and 'deck' in dk, horizon=s.now + 10)
+            settle()
+
+        def guarded(fn):
+            def run():
+                try:
+                    fn()
+                except Exception as e:
+                    if type(e) is not Exception:      # the manager refuses with a plain Exception
+                        raise
+            return run
+        query()
         dev.services[sv.PORT_MEM] = Manual()
         rid_of = {}          # (kind, addr) -> rid for notes
         noted = {}
@@ -1108,7 +1141,10 @@ def replay_behaviour(beh):
             if name == 'URead':
                 m, a, n, sf = args
                 shot.armed = bool(sf)
-                u = s.spawn(lambda: cf.mem.read(cf.mem.get_mem(m), a * UNIT, n * UNIT), 'user')
+                if deck:
+                    u = s.spawn(guarded(lambda: dk['deck'].read(a * UNIT, n * UNIT, lambda *x: None, lambda *x: None)), 'user')
+                else:
+                    u = s.spawn(lambda: cf.mem.read(cf.mem.get_mem(m), a * UNIT, n * UNIT), 'user')
                 s.run(until=lambda: u.finished, horizon=s.now + 5)
                 if sf:
                     settle()
@@ -1120,7 +1156,10 @@ def replay_behaviour(beh):
                 nreq_here = len(st['req'])
                 # distinct start addresses per request so notifications identify it (model uses Addrs)
                 data = bytearray((nreq_here * 31 + i) & 0xFF for i in range(n * UNIT))
-                u = s.spawn(lambda: cf.mem.write(cf.mem.get_mem(m), a * UNIT, data, flush_queue=f), 'user')
+                if deck:
+                    u = s.spawn(guarded(lambda: dk['deck'].write(a * UNIT, data, lambda *x: None, lambda *x: None)), 'user')
+                else:
+                    u = s.spawn(lambda: cf.mem.write(cf.mem.get_mem(m), a * UNIT, data, flush_queue=f), 'user')
                 s.run(until=lambda: u.finished, horizon=s.now + 5)
                 if sf:
                     settle()
@@ -1153,6 +1192,7 @@ def replay_behaviour(beh):
                 nconn += 1
                 dev.services[sv.PORT_MEM] = memsvc
                 connect(nconn)
+                query()
                 dev.services[sv.PORT_MEM] = Manual()
             # ---- projection
             try:
@@ -1167,9 +1207,11 @@ def replay_behaviour(beh):
             if srd['rid'] == 0:
                 ok &= (0 not in rdp)
             else:
-                ok &= rdp.get(0) == (srd['cur'] * UNIT, srd['left'] * UNIT)
+                ok &= rdp.get(0) == (BASE + srd['cur'] * UNIT, srd['left'] * UNIT)
             swq = st['wq'][0]
-            ok &= [(x['cur'] * UNIT, x['rest'] * UNIT) for x in swq] == wqp.get(0, [])
+            ok &= [(BASE + x['cur'] * UNIT, x['rest'] * UNIT) for x in swq] == wqp.get(0, [])
+            if deck and st['link']:
+                ok &= (st['dk'][0] != 0) == (dk.get('mgr') is not None and dk['mgr']._write_complete_cb is not None)
             ok &= (lockp == (st['wlock'] != 'free'))
             ok &= len(inbox) == len(st['up']) and len(outbox) == len(st['down'])
             if ok:
@@ -1180,9 +1222,10 @@ def replay_behaviour(beh):
     return matched, total, first
 
 
-def _replay_job(beh):
+def _replay_job(job):
+    beh, deck = job
     try:
-        return replay_behaviour(beh)
+        return replay_behaviour(beh, deck)
     except Exception as e:       # a harness problem in the replay is drift evidence, not a verdict
         import traceback
         return (0, max(1, len(beh) - 1), ('exception', traceback.format_exc()[-800:]))
@@ -1227,9 +1270,13 @@ def main(tier, seed, replay=None):
 
     # 2. spec -> code
     nsim = 150 if tier == 'quick' else 1500
-    rs, behs = tlc.simulate('MC_MemProto.tla', 'SIM_MemProto.cfg', num=nsim, depth=30, seed=seed % 100000, timeout=900)
-    out.add_tlc('SIM_MemProto.cfg (-simulate num=%d)' % nsim, rs)
-    reps = common.pmap(_replay_job, behs, init=_init, maxtasks=200)
+    jobs = []
+    for (simcfg, isdeck, num) in (('SIM_MemProto.cfg', False, nsim), ('SIM_MemProto_deck.cfg', True, nsim // 3)):
+        rs, behs = tlc.simulate('MC_MemProto.tla', simcfg, num=num, depth=30, seed=seed % 100000, timeout=900)
+        out.add_tlc('%s (-simulate num=%d)' % (simcfg, num), rs)
+        jobs += [(b, isdeck) for b in behs]
+    behs = jobs
+    reps = common.pmap(_replay_job, jobs, init=_init, maxtasks=200)
     steps = sum(x[1] for x in reps)
     msteps = sum(x[0] for x in reps)
     full = sum(1 for x in reps if x[0] == x[1])
